@@ -46,7 +46,11 @@ def check_songs(ctx, cases, origin, with_model):
         if f[0] == "OK":
             per[label] += int(f[1])
         elif f[0].startswith("EXCLUDED"):
-            ctx.dist["excluded_tracks"] = ctx.dist.get("excluded_tracks", 0) + 1
+            ctx.dist["excluded_tracks:" + origin] = ctx.dist.get("excluded_tracks:" + origin, 0) + 1
+            if origin == "compiled":
+                # songs built by hand may hold events the writer's one-byte meta length cannot carry; the COMPILER must not
+                ctx.oracle_fail("the compiler handed the writer an event outside what the writer can encode (%s)" % r[:80], line[:2000],
+                                r[:200], "text metas are cut to 127 bytes", input_text=label)
         else:
             ctx.oracle_fail("track %d does not decode to its event list (%s)" % (i, f[0]), line[:2000],
                             f[2][:600] if len(f) > 2 else f[0], f[1][:600] if len(f) > 1 else "", input_text=label)
@@ -77,6 +81,13 @@ def run(ctx):
     srcs = [mmlgen.core_program(rng) for _ in range(n)]
     srcs += mmlgen.samples()
     srcs += [mmlgen.mutate(rng, s) for s in mmlgen.samples() for _ in range(3 if ctx.tier == "quick" else 40)]
+    # text metas around the 127-byte limit of their one-byte length (1-, 2-, 3-, 4-byte characters; the text is cut, the
+    # track must still decode event by event)
+    for ch in ["a", "é", "あ", "😀"]:
+        for k in [126, 127, 128, 129, 300]:
+            n = max(1, k // len(ch.encode("utf-8")))
+            for pad in ["", "x", "xy"]:
+                srcs.append("%s={%s%s} l4 cde" % (rng.choice(["TrackName", "Copyright", "Lyric", "MetaText", "Marker"]), pad, ch * n))
     srcs += ["y1,200 c", "o10 b", "t-10 c d", "SysEx$=F0,41,10,42,12," + ",".join(["01"] * 130) + ",F7 c", "q100 l%127 c d",
              "v200 c", "PB(20000) c", "p(200) c", "CH(20) c", "@300 c"]
     lines = ["compile_ev\t%s" % vlib.enc_text(s) for s in srcs]
